@@ -490,7 +490,7 @@ Q(id='C04.detect_aligned.manyrows', props=['C04', 'C17', 'C01'], cls='B', harnes
 # =========================================================================== writers (C15, C06)
 def _writer_shapes(tier):
     out = []
-    base = [(2, 1, (1, 2)), (2, 3, (2, 3)), (2, 60, (1, 3)), (2, 61, (2, 2)), (3, 2, (1, 2, 3))]
+    base = [(2, 1, (1, 2)), (2, 3, (2, 3)), (2, 60, (1, 3)), (2, 61, (2, 2)), (3, 2, (1, 2, 3)), (2, 2, (3, 1)), (3, 2, (7, 1, 2))]   # incl. first name the longest
     if tier != 'quick':
         base += [(2, 59, (1, 1)), (2, 120, (1, 2)), (2, 121, (3, 1)), (3, 60, (1, 2, 1)), (2, 5, (10, 3))]
     for n, w, nl in base:
@@ -604,3 +604,30 @@ S(id='omp_distance_loop_present', props=['C02'], kind='order', files=['lib/src/s
 
 # (a query for kalign_read_input through stubbed fopen/getline was built and dropped: it did not finish in 15 min even on
 #  concrete inputs -- phantom re-allocation paths; harness/c04_read_input.c is kept for reference, seeded change C04_a is NOT caught)
+
+def _profile_shapes(tier):
+    out = []
+    rows = [1, 2]
+    lbs = [2] if tier == 'quick' else [2, 3]
+    groups = [(2, 1), (2, 2)] if tier == 'quick' else [(2, 1), (3, 1), (2, 2), (3, 2)]
+    psets = [0, 2] if tier == 'quick' else [0, 1, 2]
+    for ka, kb in groups:
+        for r in rows:
+            for lb in lbs:
+                for sb in (0, 1):
+                    for eb in (lb - 1, lb):
+                        if eb - sb < 1:
+                            continue
+                        for ps in psets:
+                            for ins in (0, 1, 2):
+                                out.append(dict(name='ka%d_kb%d_rows%d_lb%d_sb%d_eb%d_p%d_in%d' % (ka, kb, r, lb, sb, eb, ps, ins),
+                                                defs=dict(KV_KA=ka, KV_KB=kb, KV_ROWS=r, KV_LB=lb, KV_SB=sb, KV_EB=eb, KV_PSET=ps, KV_IN=ins)))
+    return out
+Q(id='C07.profiles.fwd_groups', props=['C07', 'C08'], cls='B', harness='c07_profiles.c', entry='h_c07_profiles', shapes=_profile_shapes,
+  mode='wrap', unwind=8, timeout=900, funcs=['aln_seqprofile_foward', 'aln_profileprofile_foward', 'make_profile_n', 'update_n', 'set_gap_penalties_n'],
+  srcs=['lib/src/aln_mem.c'], native_srcs=['lib/src/tldevel.c', 'lib/src/aln_mem.c'], trusted=[TRUST_MSG],
+  assumptions=[A_FLOAT, A_KFLOAT, A_WRAP, A_NOFAIL, 'bounded: groups of 2 (thorough 3) identical copies against a single sequence or a group of 2, rectangles 1-2 rows x 2 (3) columns, 3 residue codes; profiles are built by the real make_profile_n / update_n (diagonal path) / set_gap_penalties_n'])
+Q(id='C17.sort_by_both', props=['C17'], cls='P', harness='c17_comparators.c', entry='h_c17_comparators',
+  mode='wrap', unwind=8, timeout=600, funcs=['sort_by_both', 'sort_by_name', 'sort_by_chksum'],
+  native_srcs=['lib/src/tldevel.c'], trusted=[TRUST_MSG, 'strncmp: CBMC library model'],
+  assumptions=[A_WRAP, 'names: all NUL-terminated strings of up to 4 bytes (full byte domain, so proper prefixes included); checksums: full int domain'])
